@@ -18,9 +18,24 @@ Theorem C03_single : forall c w e um a r, plain_env e = true ->
 Proof. exact C03_single_proof. Qed.
 Print Assumptions C03_single.
 
-(* (c) umount -all: legal calls inside the build roots, frame, descendants first, and the
-   ROk / RFail clauses -- under the decidable hypotheses collected in [C03_all_hyp]
-   (docs/proofs-C03-C04.md lists them with the counterexamples that make each necessary) *)
+(* (c) umount -all.  For this command and a plain environment the predicate is the conjunction
+   [all_safe && all_outcome] (C03_all_split).
+   Safety -- every call legal inside the build roots, mounts outside them untouched, layers
+   processed descendants first -- holds for every world with a well-formed table, unique layer
+   names and build roots that are proper, pairwise unrelated directories. *)
+Theorem C03_all_split : forall c w v, v_cmd v = CUmount [] true -> plain_env (v_env v) = true ->
+  C03.step_spec c w v = C03AllP.all_safe c w v && C03AllP.all_outcome c w v.
+Proof. exact C03AllP.step_spec_all. Qed.
+Print Assumptions C03_all_split.
+
+Theorem C03_all_safety : forall c w e um, plain_env e = true -> C03AllP.C03_all_safe_hyp c w = true ->
+  C03AllP.all_safe c w (view_of_model c w e (CUmount [] true) um) = true.
+Proof. exact C03AllP.C03_all_safety_proof. Qed.
+Print Assumptions C03_all_safety.
+
+(* the whole predicate, ROk / RFail clauses included, under the further decidable hypotheses of
+   [C03_all_hyp]; docs/proofs-C03-C04.md gives for each of them the world that refutes the
+   predicate without it *)
 Theorem C03_all_partial : forall c w e um, plain_env e = true -> C03AllP.C03_all_hyp c w = true ->
   C03.step_spec c w (view_of_model c w e (CUmount [] true) um) = true.
 Proof. exact C03AllP.C03_all_proof. Qed.
